@@ -248,7 +248,16 @@ class Engine:
 
     def write_field(self, st: State, obj: VScalar, fname: str, val: V, node=None) -> None:
         hf = self.heap_field(st, obj.ty.name, fname)
-        val = self.coerce(val, hf.ty, st, node)
+        try:
+            val = self.coerce(val, hf.ty, st, node)
+        except Unsupported:
+            if isinstance(val, (VTuple, VList, VSet, VDict, VStr, VNone)) and hf.ty.kind in ("opt", "dict", "odict", "set", "list") and self.current is not None:
+                # a container of the WRONG KIND is stored in a field with a declared type (e.g. a list where a dict or None is required): that is a
+                # failed obligation of the target, not a limit of the translator; the field is left unconstrained on this path
+                st.oblige("%s.value-stored-in-%s.%s-has-the-declared-type" % (self.current.key, obj.ty.name, fname), z3.BoolVal(False), getattr(node, "lineno", 0))
+                hf.parts = [z3.Const(fresh_name("H_%s_%s_illtyped" % (obj.ty.name, fname)), p.sort()) for p in hf.parts]
+                return
+            raise
         parts = flatten(val)
         if len(parts) != len(hf.parts):
             raise Unsupported("field %s.%s: value shape mismatch" % (obj.ty.name, fname), node)
